@@ -293,6 +293,9 @@ class Interp(Ops):
                 return VClass(imp[1].name)
             if imp is not None and imp[0] == "func" and name not in self.lib:
                 return VClosure(imp[1], None)
+            if imp is not None and imp[0] == "module":
+                m2 = imp[1]
+                return VModule(m2.path, {fn: VClosure(fi, None) for fn, fi in m2.functions.items() if "." not in fn})
             rx = self.regex_constant(name)
             if rx is not None:
                 return rx
@@ -373,7 +376,14 @@ class Interp(Ops):
                     raise Unsupported("** of a non-concrete dict")
                 d.update(self.st.heap[(inner.ref, "items")])
             else:
-                d[self.concrete_key(self.eval(k, fr))] = self.eval(v, fr)
+                kv = self.eval(k, fr)
+                try:
+                    d[self.concrete_key(kv)] = self.eval(v, fr)
+                except Unsupported:
+                    if len(e.keys) != 1:
+                        raise
+                    from .redis_model import VPairs
+                    return VPairs([(kv, self.eval(v, fr))])
         return self.new_dict(d)
 
     def e_JoinedStr(self, e, fr):
@@ -847,7 +857,9 @@ class Interp(Ops):
         if not isinstance(v, VCoro):
             if isinstance(v, VNoneT) and getattr(self, "last_builtin_awaitable", False):
                 self.last_builtin_awaitable = False
-                return VNone          # a library coroutine modelled by a builtin whose effect already happened
+                pv = getattr(self, "pending_await_value", None)
+                self.pending_await_value = None
+                return pv if pv is not None else VNone   # a library coroutine modelled by a builtin (effect already applied)
             if isinstance(v, VObj):
                 c = self.find_contract_for_method(v.cls, "__await__")
                 if c is None:
@@ -1430,6 +1442,31 @@ class Interp(Ops):
 
     def s_With(self, s, fr):
         raise Unsupported("with statement")
+
+    def s_AsyncWith(self, s, fr):
+        if len(s.items) != 1:
+            raise Unsupported("async with several items")
+        item = s.items[0]
+        cm = self.eval(item.context_expr, fr)
+        if getattr(cm, "kind", "") == "pipe":
+            entered = cm        # redis-py Pipeline.__aenter__ returns the pipeline; __aexit__ resets it
+        elif isinstance(cm, VObj) and self.find_contract_for_method(cm.cls, "__aenter__") is not None:
+            entered = self.do_await(self.call_function(self.getattr(cm, "__aenter__"), [], {}, s), s)
+        else:
+            raise Unsupported(f"async with {cm!r}")
+        if item.optional_vars is not None:
+            self.assign_target(item.optional_vars, entered, fr)
+        pending = None
+        try:
+            self.exec_block(s.body, fr)
+        except (PyRaise, _Return, _Break, _Continue) as ctl:
+            pending = ctl
+        if getattr(cm, "kind", "") == "pipe":
+            self.st.heap[(cm.ref, "queued")] = ()      # leaving the block discards commands that were not executed
+        else:
+            self.do_await(self.call_function(self.getattr(cm, "__aexit__"), [VNone, VNone, VNone], {}, s), s)
+        if pending is not None:
+            raise pending
 
     # ------------------------------------------------------------------ loops
     def s_For(self, s, fr):
